@@ -64,13 +64,45 @@ def runStmtCalls (sch : Schema) (t : List Row) (cs : List EdCall) : List Row :=
 def runHist (sch : Schema) (t : List Row) (stmts : List (List EdCall)) : List Row :=
   stmts.foldl (runStmtCalls sch) t
 
-/-- the guards of `unique_invariant_partial`, statement by statement: printed keys of the rows of
-a statement are distinguishable, and every unique check is exact. -/
+/-- the guard of `unique_invariant_partial`, statement by statement: every unique check is exact.
+(Before the repair of `pk_print_collision` it also demanded `KeyInjOn` of the rows of every
+statement; that now follows from typing: `keyInjOn_typed`.) -/
 def HistGuard (sch : Schema) : List Row → List (List EdCall) → Prop
   | _, [] => True
   | t, cs :: rest =>
-    (KeyInjOn sch.pk (cs.flatMap EdCall.rows) ∧ exactRun sch (stmtBegin (mkEd t)) cs = true)
-      ∧ HistGuard sch (runStmtCalls sch t cs) rest
+    exactRun sch (stmtBegin (mkEd t)) cs = true ∧ HistGuard sch (runStmtCalls sch t cs) rest
+
+/-- well-formedness of a history: the key columns of every row handed to the editor hold values of
+the declared kinds (`KeyTyped`). -/
+def HistTyped (sch : Schema) (stmts : List (List EdCall)) : Prop :=
+  ∀ cs ∈ stmts, ∀ c ∈ cs, ∀ r ∈ c.rows, KeyTyped sch r
+
+/-! ## the pre-fix editor `Insert` (only to state the witness `fixed_pk_print_collision`) -/
+
+def pkInsertPreFix (sch : Schema) (e : Ed) (row : Row) : Ed :=
+  { e with adds := alSet e.adds (getRowKeyPreFix sch.pk row) row }
+
+def pkGetPreFix (sch : Schema) (e : Ed) (row : Row) : Option (Row × Bool) :=
+  let k := getRowKeyPreFix sch.pk row
+  match alGet e.adds k with
+  | some r => some (r, true)
+  | none =>
+    match alGet e.dels k with
+    | some r => some (r, false)
+    | none =>
+      match e.rows.find? (fun pr => columnsMatch sch.pk [] pr row) with
+      | some r => some (r, true)
+      | none => none
+
+/-- `tableEditor.Insert` on a keyed table as it was before the `fix:` commit (`edInsert` with the
+pre-fix `getRowKey`; ghost flag omitted). -/
+def edInsertPreFix (sch : Schema) (e : Ed) (row : Row) : Except EdErr Ed :=
+  match pkGetPreFix sch e row with
+  | some (r, true) => .error (.pk r false)
+  | _ =>
+    match checkUnique sch e row sch.uniques with
+    | some ex => .error (.uk ex false)
+    | none => .ok (pkInsertPreFix sch e row)
 
 /-- state invariant: distinct key values, and no two rows agree on a unique index (NULLs never agree). -/
 def UniqInv (sch : Schema) (t : List Row) : Prop := NoDupPk sch.pk t ∧ ListOK sch t
@@ -174,7 +206,10 @@ open Gms.MemTable
 truncates `string`/`[]byte` values to `v[:prefixLength]` (bytes), compares decimals with `Cmp` and
 everything else with Go `!=`; `GetByCols` looks at pending deletes (bail), pending adds, stored
 rows, in this order; `Get` at adds, deletes, stored rows; `checkUniqueConstraints` skips an index
-in which the row has a NULL; `Insert`/`Update` call the checks in the modelled order. -/
+in which the row has a NULL; `Insert`/`Update` call the checks in the modelled order; `getRowKey`
+prints every key value with `%v` and writes it length-prefixed (`"%d:%s,"` with `len(s), s`) — the
+repair of finding `pk_print_collision`: if the prefix disappears again this obligation breaks and
+`fixed_pk_print_collision` below is the replay. -/
 theorem facts_match :
     Gms.Generated.C14.columnsMatchSwitchCases = ["string", "[]byte", "string", "[]byte"]
     ∧ Gms.Generated.C14.columnsMatchTypeAsserts = ["*apd.Decimal", "*apd.Decimal", "[]byte", "[]byte"]
@@ -184,6 +219,8 @@ theorem facts_match :
     ∧ Gms.Generated.C14.pkGetByCols = ["deletes.FindForeach", "columnsMatch", "adds.FindForeach", "columnsMatch",
         "tableData.schema.HasVirtualColumns", "columnsMatch"]
     ∧ Gms.Generated.C14.pkGet = ["getRowKey", "adds.Get", "deletes.Get", "columnsMatch"]
+    ∧ Gms.Generated.C14.getRowKeyFormats = ["%v", "%d:%s,"]
+    ∧ Gms.Generated.C14.getRowKeyLenArgs = ["len(s)", "s"]
     ∧ Gms.Generated.C14.checkUnique = ["hasNullForAnyCols", "ea.GetByCols", "sql.NewUniqueKeyErr"]
     ∧ Gms.Generated.C14.edInsert = ["ea.Get", "sql.NewUniqueKeyErr", "checkUniqueConstraints", "ea.Insert"]
     ∧ Gms.Generated.C14.edUpdate = ["ea.Delete", "pkColsDiffer", "ea.Get", "sql.NewUniqueKeyErr", "checkUniqueConstraints", "ea.Insert"]
@@ -194,27 +231,52 @@ theorem facts_match :
     ∧ Gms.Generated.C14.hasNullReturns = ["true", "false"] := by
   decide
 
+/-- **The printed key is injective** (`key_injective`; FALSE before the repair of
+`pk_print_collision`, see `fixed_pk_print_collision`): for every schema and every set of rows whose
+key columns hold values of the declared kinds, `getRowKey` gives different rows-by-key different map
+keys — whatever the number of key columns and whatever digits, separators or lengths the values
+contain. -/
+theorem key_injective (sch : Schema) (S : List Row) (hty : ∀ r ∈ S, KeyTyped sch r) :
+    KeyInjOn sch.pk S :=
+  keyInjOn_typed sch S hty
+
+/-- non-vacuity: the old witnesses are typed rows, and their keys now differ. -/
+example : KeyTyped { cols := [{}, {}, {}], pk := [0, 1], uniques := [] } [.int 1, .int 23, .int 0]
+    ∧ KeyTyped { cols := [{}, {}, {}], pk := [0, 1], uniques := [] } [.int 12, .int 3, .int 1]
+    ∧ getRowKey [0, 1] [.int 1, .int 23, .int 0] ≠ getRowKey [0, 1] [.int 12, .int 3, .int 1]
+    ∧ getRowKey [0, 1] [.str [97], .str [98, 99]] ≠ getRowKey [0, 1] [.str [97, 98], .str [99]] := by
+  refine ⟨?_, ?_, by decide, by decide⟩ <;> intro c hc <;>
+    simp only [List.mem_cons, List.not_mem_nil, or_false] at hc <;> rcases hc with rfl | rfl <;> decide
+
 /-- Full statement (`unique_invariant`): `∀ sch t stmts, UniqInv sch t → UniqInv sch (runHist sch t stmts)`
-— FALSE on the unchanged code (see the three findings below). Proved: the same for every history
-of editor calls (any number of statements, any calls) under the guards `HistGuard`:
-no case-insensitive column, printed keys of the rows of one statement distinguishable, every
-unique-index lookup exact w.r.t. the pending edits. -/
+— FALSE on the unchanged code (see the findings below). Proved: the same for every history of
+editor calls (any number of statements, any calls) over typed rows under the guards: no
+case-insensitive column, and `HistGuard`: every unique-index lookup exact w.r.t. the pending edits.
+(The former third guard — printed keys of the rows of one statement distinguishable — is gone:
+it holds for all typed rows since the repair of `pk_print_collision`, `key_injective`.) -/
 theorem unique_invariant_partial (sch : Schema) (hk : sch.keyless = false) (hci : NoCi sch)
-    (t : List Row) (h : UniqInv sch t) (stmts : List (List EdCall)) (hg : HistGuard sch t stmts) :
+    (t : List Row) (h : UniqInv sch t) (stmts : List (List EdCall)) (hty : HistTyped sch stmts)
+    (hg : HistGuard sch t stmts) :
     UniqInv sch (runHist sch t stmts) := by
   unfold runHist
   induction stmts generalizing t with
   | nil => exact h
   | cons cs rest ih =>
     simp only [List.foldl_cons]
-    obtain ⟨⟨g1, g2⟩, g3⟩ := hg
-    exact ih _ (runStmtCalls_inv sch hk hci t h cs g1 g2) g3
+    obtain ⟨g2, g3⟩ := hg
+    have g1 : KeyInjOn sch.pk (cs.flatMap EdCall.rows) :=
+      keyInjOn_typed sch _ (fun r hr => by
+        obtain ⟨c, hc, hrc⟩ := List.mem_flatMap.mp hr
+        exact hty cs (by simp) c hc r hrc)
+    exact ih _ (runStmtCalls_inv sch hk hci t h cs g1 g2)
+      (fun cs' hcs' => hty cs' (List.mem_cons_of_mem _ hcs')) g3
 
 /-- … and the invariant is the executable Spec predicate the driver and the harness evaluate. -/
 theorem unique_invariant_partial_spec (sch : Schema) (hk : sch.keyless = false) (hci : NoCi sch)
-    (hnp : NoPrefix sch) (t : List Row) (h : UniqInv sch t) (stmts : List (List EdCall)) (hg : HistGuard sch t stmts) :
+    (hnp : NoPrefix sch) (t : List Row) (h : UniqInv sch t) (stmts : List (List EdCall))
+    (hty : HistTyped sch stmts) (hg : HistGuard sch t stmts) :
     specNoDup sch (runHist sch t stmts) = true :=
-  uniqInv_specNoDup sch hk hci hnp _ (unique_invariant_partial sch hk hci t h stmts hg)
+  uniqInv_specNoDup sch hk hci hnp _ (unique_invariant_partial sch hk hci t h stmts hty hg)
 
 /-- non-vacuity: a two-statement history (insert two rows; move one to a new key and unique value,
 delete the other, insert a third) satisfies every guard, and the result has three… two rows. -/
@@ -227,25 +289,51 @@ example : exactRun exSch (stmtBegin (mkEd [])) exHist[0] = true
     ∧ exactRun exSch (stmtBegin (mkEd (runStmtCalls exSch [] exHist[0]))) exHist[1] = true
     ∧ runHist exSch [] exHist = [[.int 3, .int 6], [.int 4, .int 5]] := by decide
 
+example : HistTyped exSch exHist := by
+  intro cs hcs c hc r hr k hk
+  simp only [exSch, List.mem_cons, List.not_mem_nil, or_false] at hk
+  subst hk
+  simp only [exHist, List.mem_cons, List.not_mem_nil, or_false] at hcs
+  rcases hcs with rfl | rfl <;> simp only [List.mem_cons, List.not_mem_nil, or_false] at hc <;>
+    rcases hc with rfl | rfl | rfl <;> simp only [EdCall.rows, List.mem_cons, List.not_mem_nil, or_false] at hr <;>
+    (try rcases hr with rfl | rfl) <;> (try subst hr) <;> decide
+
 /-- **No false duplicate** (`no_false_duplicate`, editor level): if `tableEditor.Insert` rejects a
 row, the row it names is in the table-as-it-will-be and collides with the new row on the primary
-key or on a unique index in which the new row has no NULL — under the same guards. -/
+key or on a unique index in which the new row has no NULL — for all typed rows (`S`: the rows the
+statement has handled so far), under the two remaining guards (no case-insensitive column, exact
+unique lookup). The `KeyInjOn` guard of the pre-repair version is gone. -/
 theorem no_false_duplicate_partial (sch : Schema) (hk : sch.keyless = false) (hci : NoCi sch)
-    (S : List Row) (hinj : KeyInjOn sch.pk S) (e : Ed) (inv : EdInv sch S e) (row : Row) (hr : row ∈ S)
+    (S : List Row) (hty : ∀ r ∈ S, KeyTyped sch r) (e : Ed) (inv : EdInv sch S e) (row : Row) (hr : row ∈ S)
     (hex : inexactNow sch e row = false) (x : EdErr) (h : edInsert sch e row = .error x) :
     x.existing ∈ pkApply sch e ∧
       (proj sch.pk x.existing = proj sch.pk row ∨
         ∃ u ∈ sch.uniques, hasNullForAnyCols row u.1 = false ∧ columnsMatch u.1 u.2 x.existing row = true) :=
-  edInsert_err sch hk hci S hinj e inv row hr hex x h
+  edInsert_err sch hk hci S (keyInjOn_typed sch S hty) e inv row hr hex x h
+
+/-- **No false duplicate on the primary key — full statement** (no guard besides typing; this is
+the statement `finding_pk_print_collision` used to refute): on a table without unique indexes, a
+row that `tableEditor.Insert` rejects really has the key values of the row named in the error, and
+that row is in the table-as-it-will-be. -/
+theorem no_false_pk_duplicate (sch : Schema) (hk : sch.keyless = false) (hci : NoCi sch)
+    (hu : sch.uniques = []) (S : List Row) (hty : ∀ r ∈ S, KeyTyped sch r) (e : Ed) (inv : EdInv sch S e)
+    (row : Row) (hr : row ∈ S) (x : EdErr) (h : edInsert sch e row = .error x) :
+    x.existing ∈ pkApply sch e ∧ proj sch.pk x.existing = proj sch.pk row := by
+  have hex : inexactNow sch e row = false := by simp [inexactNow, hu]
+  obtain ⟨h1, h2⟩ := edInsert_err sch hk hci S (keyInjOn_typed sch S hty) e inv row hr hex x h
+  refine ⟨h1, ?_⟩
+  rcases h2 with h2 | ⟨u, hu', _⟩
+  · exact h2
+  · rw [hu] at hu'; cases hu'
 
 /-- … and an accepted row collides with nothing: its key is free and it agrees with no row of the
 table-as-it-will-be on a unique index; afterwards that table is the old one plus the row. -/
 theorem insert_accepts_exactly (sch : Schema) (hk : sch.keyless = false) (hci : NoCi sch)
-    (S : List Row) (hinj : KeyInjOn sch.pk S) (e : Ed) (inv : EdInv sch S e) (row : Row) (hr : row ∈ S)
+    (S : List Row) (hty : ∀ r ∈ S, KeyTyped sch r) (e : Ed) (inv : EdInv sch S e) (row : Row) (hr : row ∈ S)
     (hex : inexactNow sch e row = false) (e' : Ed) (h : edInsert sch e row = .ok e') :
     (∀ r, r ∈ pkApply sch e' ↔ r = row ∨ r ∈ pkApply sch e) ∧ LMap sch e (proj sch.pk row) = none
       ∧ ListOK sch (pkApply sch e') := by
-  obtain ⟨i, m, f⟩ := edInsert_ok sch hk hci S hinj e inv row hr hex e' h
+  obtain ⟨i, m, f⟩ := edInsert_ok sch hk hci S (keyInjOn_typed sch S hty) e inv row hr hex e' h
   exact ⟨m, f, i.ok⟩
 
 /-- `null_never_conflicts`: a row with a NULL in every unique index passes the unique check,
@@ -255,30 +343,41 @@ theorem null_never_conflicts (sch : Schema) (e : Ed) (row : Row)
     checkUnique sch e row sch.uniques = none :=
   checkUnique_null sch e row sch.uniques h
 
-/-- `pkTableEditAccumulator.Get` is exact under `KeyInjOn`: it answers "present" iff the
-table-as-it-will-be holds a row with the key values of `row` (and returns that row). -/
-theorem get_exact (sch : Schema) (S : List Row) (hinj : KeyInjOn sch.pk S) (e : Ed)
+/-- **`pkTableEditAccumulator.Get` is exact — full statement** (it needed the guard `KeyInjOn`
+before the repair): for all typed rows it answers "present" iff the table-as-it-will-be holds a
+row with the key values of `row` (and returns that row). -/
+theorem get_exact (sch : Schema) (S : List Row) (hty : ∀ r ∈ S, KeyTyped sch r) (e : Ed)
     (hwf : AccWF sch.pk S e) (row : Row) (hr : row ∈ S) :
     LMap sch e (proj sch.pk row)
       = match pkGet sch e row with
         | some (r, true) => some r
         | _ => none :=
-  pkGet_spec sch S hinj e hwf row hr
+  pkGet_spec sch S (keyInjOn_typed sch S hty) e hwf row hr
 
-/-! ### findings on the unchanged tree -/
+/-! ### the repaired finding, and the findings that remain on the unchanged tree -/
 
 def schComposite : Schema := { cols := [{}, {}, {}], pk := [0, 1], uniques := [] }
 def schUnique : Schema := { cols := [{}, {}], pk := [0], uniques := [([1], [0])] }
 def schCiPk : Schema := { cols := [{ str := true, ci := true }, {}], pk := [0], uniques := [] }
 def schCiUq : Schema := { cols := [{}, { str := true, ci := true }], pk := [0], uniques := [([1], [0])] }
 
-/-- `no_false_duplicate` without the `KeyInjOn` guard is FALSE: (12,3) is rejected as a duplicate
-of the pending (1,23). -/
-theorem finding_pk_print_collision :
-    ∃ sch e row r, (match edInsert sch e row with | .error x => some x.existing | .ok _ => none) = some r
-      ∧ specConflict sch r row = false ∧ keyCollide sch r row = true :=
-  ⟨schComposite, pkInsert schComposite (mkEd []) [.int 1, .int 23, .int 0], [.int 12, .int 3, .int 1],
-    [.int 1, .int 23, .int 0], by decide, by decide, by decide⟩
+/-- **Repaired defect `pk_print_collision`.** Before the `fix:` commit `no_false_duplicate` was
+FALSE without a `KeyInjOn` guard: with (1,23) pending, the pre-fix `tableEditor.Insert` rejected
+(12,3) as a duplicate of it although the two rows collide on no key (their printed keys were both
+`123`). The repaired `Insert` accepts the row, and the statement INSERT (1,23),(12,3) has the
+outcome and the table of the Spec; likewise for the string keys ('a','bc') / ('ab','c'). -/
+theorem fixed_pk_print_collision :
+    (∃ r, (match edInsertPreFix schComposite (pkInsertPreFix schComposite (mkEd []) [.int 1, .int 23, .int 0])
+              [.int 12, .int 3, .int 1] with | .error x => some x.existing | .ok _ => none) = some r
+        ∧ specConflict schComposite r [.int 12, .int 3, .int 1] = false
+        ∧ keyCollidePreFix schComposite r [.int 12, .int 3, .int 1] = true)
+    ∧ (match edInsert schComposite (pkInsert schComposite (mkEd []) [.int 1, .int 23, .int 0])
+          [.int 12, .int 3, .int 1] with | .error _ => false | .ok _ => true) = true
+    ∧ implStmt schComposite [] (.insert false [[.int 1, .int 23, .int 0], [.int 12, .int 3, .int 1]])
+        = specStmt schComposite [] (.insert false [[.int 1, .int 23, .int 0], [.int 12, .int 3, .int 1]])
+    ∧ getRowKeyPreFix [0, 1] [.str [97], .str [98, 99]] = getRowKeyPreFix [0, 1] [.str [97, 98], .str [99]]
+    ∧ getRowKey [0, 1] [.str [97], .str [98, 99]] ≠ getRowKey [0, 1] [.str [97, 98], .str [99]] :=
+  ⟨⟨[.int 1, .int 23, .int 0], by decide, by decide, by decide⟩, by decide, by decide, by decide, by decide⟩
 
 /-- `unique_invariant` is FALSE: one REPLACE stores the unique value 5 twice. -/
 theorem finding_unique_check_ignores_pending_edits :
